@@ -470,6 +470,8 @@ class ResidualSampleList(SampleListBase):
 
         _ensure_proper_sample_list_ending(_sample_file_name(file_name_base, self.n_samples),
                                           overwrite, self.comm)
+        _ensure_no_overwrite([_sample_file_name(file_name_base, isample)
+                              for isample in self.local_indices], overwrite, self.comm)
 
         # Save samples
         with ensure_all_tasks_succeed(self.comm):
@@ -542,6 +544,8 @@ class SampleList(SampleListBase):
 
         _ensure_proper_sample_list_ending(_sample_file_name(file_name_base, self.n_samples),
                                           overwrite, self.comm)
+        _ensure_no_overwrite([_sample_file_name(file_name_base, isample)
+                              for isample in self.local_indices], overwrite, self.comm)
 
         # Save samples
         with ensure_all_tasks_succeed(self.comm):
@@ -679,6 +683,17 @@ def _consecutive_length(lst):
         if res + 1 not in lst:
             return res + 1
         res += 1
+
+
+def _ensure_no_overwrite(fnames, overwrite, comm):
+    # Check on all tasks *before* anything is written. Otherwise the tasks
+    # whose files do not exist yet would write them although the save fails
+    # on the other tasks.
+    with ensure_all_tasks_succeed(comm):
+        if not overwrite:
+            for fname in fnames:
+                if os.path.isfile(fname):
+                    raise RuntimeError(f"{fname} already exists")
 
 
 def _ensure_proper_sample_list_ending(fname, overwrite, comm):
